@@ -20,15 +20,18 @@ MANIFEST = dict(
          "list) - classes_right; all automation keys and all unique ids are distinct - keys_unique; get_device(key) returns that object - "
          "lookup_returns_it (+ the exact behaviour of a missing eco switch: lookup_absent_and_devices). Hypothesis NoCaseDupDemands and the "
          "other table facts are evaluated by the kernel on every shipped log/config table and on DEVICES/SENSORS/BINARY_SENSORS "
-         "(shipped_side_conditions, tables_ok). Threaded twin: with set(..) only the multiset statement holds (sync_same_as_async_partial); "
-         "the order clause is finding D10 and is proved under the hypothesis that the source de-duplicates order-preservingly. Tie: "
+         "(shipped_side_conditions, tables_ok). Threaded twin: the kind of de-duplication of each facade is regenerated from the source; "
+         "with the order-preserving de-dup (since fix 7fbeafc, former finding D10) the threaded scan IS the async scan, same order "
+         "(sync_same_as_async), and its own composition of all_automation_devices has distinct keys / unique ids and a correct lookup "
+         "(sync_keys_unique_and_lookup); the search re-checks on the real code, in subprocesses with different PYTHONHASHSEED values, "
+         "that the threaded device order does not depend on string hashing. Tie: "
          "constants, fixed keys, composition order and de-dup kind of both facades regenerated from the source; the hand-transcribed "
          "comprehensions by differential correspondence against the REAL GeckoAsyncFacade and GeckoFacade built on stub spas (assignment "
          "written into the block through the real accessors).",
     note="Trusted: Lean kernel; harness/gen_c12.py (AST evaluation of const.py, syntactic facts); the correspondence harness. 'Wired to an "
          "output' is the label-prefix relation the library itself uses (no other definition exists in the repository). str.upper() is modelled "
          "as ASCII upper: every upper-cased key of the shipped tables is ASCII (checked by the kernel).",
-    technique="Lean 4 list-algebra proofs (flatMap/filter/order-preserving dedup, Perm for the threaded twin) + decide +kernel over all "
+    technique="Lean 4 list-algebra proofs (flatMap/filter/order-preserving dedup, Perm for any admissible threaded order) + decide +kernel over all "
               "shipped tables + differential correspondence with both real facades",
     design="5/C12",
 )
